@@ -9,6 +9,7 @@ import (
 	"fmt"
 	"io"
 	"net/http"
+	"net/http/httptest"
 	"net/url"
 	"runtime"
 	"sort"
@@ -135,13 +136,15 @@ type World struct {
 	sched scheduler
 	t0    time.Time
 
-	expireOn   bool // the expire module is set up and its middleware installed (see Config.ExpireLate)
-	restarts   int
-	appHookRan atomic.Int64                               // the application's logout hook ran (atomic: tasks of a concurrent run call it)
-	lastTOTP   map[int]string                             // account -> digits last submitted as a genuine TOTP code
-	mwCache    map[string]func(http.Handler) http.Handler // guarded probe routes, mounted once per server process
-	lockMod    *lock.Lock
-	confirmMod *confirm.Confirm
+	errN          int64 // storage failures injected so far (selects the error shape)
+	expireOn      bool  // the expire module is set up and its middleware installed (see Config.ExpireLate)
+	restarts      int
+	appLoadedUser atomic.Int64
+	appHookRan    atomic.Int64                               // the application's logout hook ran (atomic: tasks of a concurrent run call it)
+	lastTOTP      map[int]string                             // account -> digits last submitted as a genuine TOTP code
+	mwCache       map[string]func(http.Handler) http.Handler // guarded probe routes, mounted once per server process
+	lockMod       *lock.Lock
+	confirmMod    *confirm.Confirm
 
 	Stats *Stats
 	mu    sync.Mutex // protects Logs/Mails/SMSes in concurrent mode
@@ -594,6 +597,13 @@ func (w *World) newSite(second bool) *authboss.Authboss {
 	ab.Config.Modules.BCryptCost = bcrypt.MinCost
 	ab.Config.Storage.SessionState = &stateRW{w: w, kind: "session"}
 	ab.Config.Storage.CookieState = &stateRW{w: w, kind: "cookie"}
+	if second {
+		// the other site is a back office: its registration form carries a
+		// role, and it has its own (memoryless) visitors
+		reader.Whitelist["register"] = []string{"email", "password", "name", "is_admin", "role"}
+		ab.Config.Storage.SessionState = nullState{}
+		ab.Config.Storage.CookieState = nullState{}
+	}
 	ab.Config.Storage.SessionStateWhitelistKeys = append([]string(nil), cfg.Whitelist...)
 	ab.Config.Paths.Mount = cfg.Mount
 	ab.Config.Paths.RootURL = "https://site.example"
@@ -673,6 +683,46 @@ func (w *World) newSite(second bool) *authboss.Authboss {
 	return ab
 }
 
+// nullState is the client-state store of the second site's visitors.
+type nullState struct{}
+
+type emptyState struct{}
+
+func (emptyState) Get(string) (string, bool) { return "", false }
+
+func (nullState) ReadState(*http.Request) (authboss.ClientState, error) { return emptyState{}, nil }
+func (nullState) WriteState(http.ResponseWriter, authboss.ClientState, []authboss.ClientStateEvent) error {
+	return nil
+}
+
+// secondSiteRequest lets a visitor of the second site use it (the two sites
+// share nothing but the process).
+func (w *World) secondSiteRequest(kind string, n int) {
+	if w.AB2 == nil {
+		return
+	}
+	ab := w.AB2
+	pidf := w.pidField()
+	fields := map[string]string{pidf: fmt.Sprintf("visitor%d@two.example", n), "password": goodPw}
+	path := "/login"
+	if w.Cfg.UseUsername {
+		fields[pidf] = fmt.Sprintf("visitor%d", n)
+	}
+	if kind == "register" {
+		path = "/register"
+		fields["confirm_password"], fields["is_admin"], fields["role"], fields["name"] = goodPw, "true", "auditor", "Visitor"
+		fields["email"] = fmt.Sprintf("visitor%d@two.example", n)
+	}
+	body, ctype := w.encodeBody(fields)
+	req := httptest.NewRequest("POST", path, strings.NewReader(body))
+	req.Header.Set("Content-Type", ctype)
+	func() {
+		defer func() { recover() }()
+		ab.LoadClientStateMiddleware(ab.Config.Core.Router).ServeHTTP(httptest.NewRecorder(), req)
+	}()
+	w.Stats.Reach["second_site_request_"+kind]++
+}
+
 type nullSMS struct{}
 
 func (nullSMS) Send(ctx context.Context, number, text string) error { return nil }
@@ -688,6 +738,14 @@ func (w *World) buildHandler() http.Handler {
 		case strings.HasPrefix(p, "/probe/"):
 			w.serveProbe(rw, r)
 		case w.Cfg.Mount == "" || p == w.Cfg.Mount || strings.HasPrefix(p, w.Cfg.Mount+"/"):
+			if w.Cfg.AppLoadsUser {
+				// the application's data injector in front of the authboss
+				// routes; errors are the routes' business (nobody logged
+				// in, user deleted, store down)
+				if _, err := ab.LoadCurrentUser(&r); err == nil {
+					w.appLoadedUser.Add(1)
+				}
+			}
 			if w.Cfg.Mount == "" {
 				ab.Config.Core.Router.ServeHTTP(rw, r)
 			} else {
